@@ -128,10 +128,3 @@ Proof.
   assert (exp 1 * exp 1 <= 9) by nra. assert (exp 1 * exp 1 * exp 1 <= 27) by nra. lra.
 Qed.
 
-(* translator tie: the data-flow graph (which output feeds which input) of canonical models of the public groups, regenerated
-   from the live models on every run, is the reviewed one; a changed or dropped promotion / connection breaks this obligation *)
-From Coq Require Import List String.
-From OAS Require Import Wiring WiringReviewed WiringProofs.
-Theorem C18_group_wiring_is_the_reviewed_one : gen_wiring = reviewed_wiring.
-Proof. exact wiring_reviewed. Qed.
-Print Assumptions C18_group_wiring_is_the_reviewed_one.
